@@ -1,10 +1,7 @@
 use std::fmt::{Result as FmtResult, Write as FmtWrite};
 
 use super::{Stringifier, Stringify};
-use crate::{
-    escape::gen_lit_str,
-    parse::expr::{ArrayFieldKind, Expression, ObjectFieldKind},
-};
+use crate::parse::expr::{ArrayFieldKind, Expression, ObjectFieldKind};
 
 #[repr(u8)]
 #[derive(Debug, Clone, Copy, PartialEq, PartialOrd, Eq, Ord)]
@@ -76,6 +73,32 @@ impl ExpressionLevel {
     }
 }
 
+/// Write a string literal with the escapes the template expression parser reads.
+///
+/// (`gen_lit_str` writes JavaScript: its `\\u{..}` escapes are not template syntax.)
+fn template_lit_str(s: &str) -> String {
+    let mut ret = String::with_capacity(s.len() + 2);
+    ret.push('"');
+    for c in s.chars() {
+        match c {
+            '"' => ret.push_str("\\\""),
+            '\\' => ret.push_str("\\\\"),
+            '\n' => ret.push_str("\\n"),
+            '\r' => ret.push_str("\\r"),
+            '\t' => ret.push_str("\\t"),
+            c if (c as u32) < 0x20 || (0x7f..0xa0).contains(&(c as u32)) => {
+                ret.push_str(&format!("\\x{:02x}", c as u32));
+            }
+            '\u{2028}' | '\u{2029}' => {
+                ret.push_str(&format!("\\u{:04x}", c as u32));
+            }
+            c => ret.push(c),
+        }
+    }
+    ret.push('"');
+    ret
+}
+
 fn expression_strigify_write<'s, W: FmtWrite>(
     expression: &Expression,
     stringifier: &mut Stringifier<'s, W>,
@@ -106,7 +129,7 @@ fn expression_strigify_write<'s, W: FmtWrite>(
             stringifier.write_token("null", None, location)?;
         }
         Expression::LitStr { value, location } => {
-            let quoted = gen_lit_str(&value);
+            let quoted = template_lit_str(&value);
             stringifier.write_token(&format!(r#"{}"#, quoted), None, &location)?;
         }
         Expression::LitInt { value, location } => {
